@@ -11,6 +11,24 @@ COMMON_TB = [
     "Go harness (generators, canonicalisation) and Lean driver I/O shell; bin/check",
 ]
 
+PAIR_RULE = ("pairs (old,new) of schemas: random schemas (0..4 tables, 1..5 columns, 18 mysql / 9 postgres / 4 sqlite type atoms, option kinds "
+             "notnull/null/default/autoinc/pk/comment, 0..2 indexes per table incl. composite/unique, foreign keys) and a mutation of 0..5 edits "
+             "(add column first/middle/last, drop, retype, re-option, add/drop/redefine index, add/drop fk, add/drop table) keeping common columns in "
+             "order; dialect mix 3:1:1 mysql:postgres:sqlite x keyword case x field-order option; SQL rendered by the harness with random keyword "
+             "case and type alias spellings; 18 hand-written witness pairs (one per defect found) run first. Every case: both sides loaded through "
+             "sqlize.FromString, white-box state after load and after Diff, StringUp/StringDown/StringUp compared with the Lean model; the migration "
+             "text printed by Go is parsed by Spec/Grammar and executed on the reference engine (Spec.c01/c02/c03/c13). non-trivial = non-empty "
+             "migration; distinct by (config, old script, new script)")
+PAIR_TB = [
+    "hand-written model Impl/{Element,Diff,Emit,Render,ReaderMysql}.lean, tied by correspondence on generated pairs only",
+    "regenerated facts: statement templates of sql-templates/*.go (factgen, go/ast) are the ones the model renders with",
+    "third-party parsers (pingcap/parser etc.): type canonicalisation, option restore text and visitor order are assumptions validated by the correspondence",
+    "postgres and sqlite readers are not modelled yet (their cases are judged by the reference engine on the Go output only)",
+    "reference engine Spec/Exec.lean and grammar Spec/Grammar.lean (MySQL rules, read not proved)",
+]
+PAIR_ASSUME = ["scripts are well-formed on the reference engine", "columns present on both sides keep their relative order",
+               "old is not re-used after Diff", "one dialect and one option set per process run of the harness pair"]
+
 PROPS = {
     "C16": {
         "level": "proof",
@@ -30,5 +48,57 @@ PROPS = {
         "explanation": "C16.main proves, for every input list of characters, that the model of ToSnakeCase is a marking of the "
                        "lower-cased input obeying the placement rules, idempotent, and accepted by the executable predicate; "
                        "C16.noCollision proves loss-freeness up to case/underscores.",
+    },
+
+    "C01": {
+        "level": "proof",
+        "lean_modules": ["SqlizeModel.Props.C01"],
+        "theorems": ["Sqlize.C01.columns", "Sqlize.Abs.columns_up", "Sqlize.Abs.Merge.merge_correct", "Sqlize.Abs.emitUp_correct"],
+        "suites": [{"name": "pair"}],
+        "corr_points": ["load-old", "load-new", "state-old", "state-new", "Diff", "state-diff", "StringUp"],
+        "rule": PAIR_RULE,
+        "trusted_base": COMMON_TB + PAIR_TB,
+        "assumptions": PAIR_ASSUME,
+        "explanation": "Proved for all inputs: the column-order core (L-merge o L-walk, Sqlize.C01.columns). Not yet proved: the refinement "
+                       "from the Impl walk (slices + position maps) to the abstract walk and the attribute/index/foreign-key lemmas; the full "
+                       "statement Sqlize.C01.Statement(_partial) is decided on every run by correspondence (model = code on state and text) plus the "
+                       "executable predicate Spec.c01 (reference DDL engine) on the migration text the Go code printed.",
+    },
+    "C02": {
+        "level": "proof",
+        "lean_modules": ["SqlizeModel.Props.C02"],
+        "theorems": ["Sqlize.C02.columns", "Sqlize.C02.up_down_identity", "Sqlize.Abs.emitDown_correct"],
+        "suites": [{"name": "pair"}],
+        "corr_points": ["load-old", "load-new", "state-old", "state-new", "Diff", "state-diff", "StringUp", "StringDown"],
+        "rule": PAIR_RULE,
+        "trusted_base": COMMON_TB + PAIR_TB,
+        "assumptions": PAIR_ASSUME,
+        "explanation": "Proved for all inputs: the down walk restores the old column order exactly (Sqlize.C02.columns) and up-then-down is the "
+                       "identity on the column list. Remaining parts of Sqlize.C02.Statement_partial are decided by correspondence + Spec.c02 on the Go output.",
+    },
+    "C03": {
+        "level": "proof",
+        "lean_modules": ["SqlizeModel.Props.C03"],
+        "theorems": ["Sqlize.C03.unchanged_prints_nothing", "Sqlize.C03.same_options_unchanged", "Sqlize.migrate_quiet"],
+        "suites": [{"name": "pair"}],
+        "corr_points": ["load-old", "load-new", "state-old", "state-new", "Diff", "state-diff", "StringUp", "StringDown", "StringUp-2nd"],
+        "rule": PAIR_RULE,
+        "trusted_base": COMMON_TB + PAIR_TB,
+        "assumptions": PAIR_ASSUME,
+        "explanation": "Proved over the Impl model for all states: tables whose elements carry no action print nothing in either direction, for every "
+                       "dialect/case/field-order setting, and stay quiet (Sqlize.C03.unchanged_prints_nothing). That Diff leaves equal schemas quiet is "
+                       "decided by correspondence + Spec.c03 on the Go output.",
+    },
+    "C13": {
+        "level": "proof",
+        "lean_modules": ["SqlizeModel.Props.C13"],
+        "theorems": ["Sqlize.C13.default_order", "Sqlize.C13.ignore_same_statements", "Sqlize.C13.ignore_no_position", "Sqlize.C13.ignore_appends"],
+        "suites": [{"name": "pair"}],
+        "corr_points": ["load-old", "load-new", "state-old", "state-new", "Diff", "state-diff", "StringUp", "StringDown"],
+        "rule": PAIR_RULE,
+        "trusted_base": COMMON_TB + PAIR_TB,
+        "assumptions": PAIR_ASSUME,
+        "explanation": "Proved for all column lists: default setting ends in the models' order; with the option the walk emits the same statements "
+                       "without positional clause, and executing them keeps surviving columns in place and appends the added ones.",
     },
 }
